@@ -864,8 +864,33 @@ fn family(fx: &Fixture) -> String {
 }
 
 /// Violation key of a judged case, if it violates C15.
-fn violation_key(fx: &Fixture, case: &Case, j: &Judged) -> Option<(String, String)> {
+fn violation_key(fx: &Fixture, case: &Case, j: &Judged, honest_sig: Option<[usize; 4]>) -> Option<(String, String)> {
     let class = case.key_class(fx);
+    // Clause (b), structural form: a list of the PROOF was shortened, the native verifier rejects the
+    // object, yet a circuit is returned and it verifies FEWER Merkle openings (non-primitive MMCS
+    // ops) than the circuit of the well-formed shape — the list was truncated silently. The run
+    // of such a circuit on the honestly packed object usually fails for arithmetic reasons, which
+    // is luck, not a check: a prover who also adapts the values is not stopped by it. (On the
+    // unchanged tree only `query_proofs` behaves like this — the known finding RC11; lengthened
+    // or cap faults legitimately change the Merkle depth and are not covered by this rule.)
+    if let (Case::Tree(f), Some(sg), Some(h)) = (case, j.sig, honest_sig) {
+        let shortened = matches!(f.kind(&fx.honest).as_str(), "pop" | "empty" | "pop_first");
+        if shortened && j.native_tag.starts_with("reject") && j.outcome == "run_reject" && sg[1] < h[1] {
+            return Some((
+                format!("weaker|{}|{}", class, family(fx)),
+                format!(
+                    "{}: {} → a verification circuit is returned that verifies {} Merkle openings instead of the {} of the well-formed shape (its run fails only at `{}`: {}); native verifier rejects the object ({})",
+                    fx.name,
+                    case.show(),
+                    sg[1],
+                    h[1],
+                    j.stage,
+                    j.circuit_tag,
+                    j.native_tag
+                ),
+            ));
+        }
+    }
     match j.outcome.as_str() {
         "panic" => Some((
             format!("panic|{}|{}|{}", j.stage, j.panic_loc, class),
@@ -918,7 +943,9 @@ fn replay(ctx: &Ctx, path: &std::path::Path, w: &WorkerCfg) -> ! {
     let report = Report::new();
     let Some(j) = j else { machinery_error("replay: the fault does not apply") };
     println!("replaying {cfg}: {} -> native {} | circuit {} at `{}` => {}", case.show(), j.native_tag, j.circuit_tag, j.stage, j.outcome);
-    if let Some((key, what)) = violation_key(&fx, &case, &j) {
+    let _ = fx.circuit_verify_fresh_staged(&fx.honest);
+    let honest_sig = vpe4::last_build_sig();
+    if let Some((key, what)) = violation_key(&fx, &case, &j, honest_sig) {
         report.violation(key, what, r.clone());
     }
     let cov = json!({"evaluations": 1, "distinct_nontrivial": 2, "rule": "replay of one stored case (native + circuit verdict)",
@@ -975,6 +1002,7 @@ fn main() {
     let samples: Mutex<BTreeMap<String, Vec<Value>>> = Mutex::new(BTreeMap::new());
     let mut per_config = vec![];
     let (mut evaluations, mut nontrivial, mut planned_total, mut skipped_total, mut not_applicable) = (0u64, 0u64, 0u64, 0u64, 0u64);
+    let mut not_a_proof_total = 0u64;
     let mut configs_done = 0usize;
     let mut exhaustive = true;
 
@@ -1005,6 +1033,7 @@ fn main() {
         let ev = AtomicU64::new(0);
         let nt = AtomicU64::new(0);
         let na = AtomicU64::new(0);
+        let nap = AtomicU64::new(0);
         let skipped = AtomicU64::new(0);
         let cfg_out = Histo::new();
 
@@ -1013,7 +1042,11 @@ fn main() {
                 na.fetch_add(1, Ordering::Relaxed);
                 return;
             };
-            ev.fetch_add(1, Ordering::Relaxed);
+            if j.outcome == "not_a_proof" {
+                nap.fetch_add(1, Ordering::Relaxed);
+            } else {
+                ev.fetch_add(1, Ordering::Relaxed);
+            }
             outcomes.add(&j.outcome);
             cfg_out.add(&j.outcome);
             let class = case.class(&fx);
@@ -1033,7 +1066,7 @@ fn main() {
                 *native_panics.lock().unwrap().entry(format!("native panic at {file}:{line} <- {class}")).or_default() += 1;
             }
             let case_json = json!({"config": fx.name, "case": case.to_json(), "class": class, "judged": j.to_json()});
-            match violation_key(&fx, case, &j) {
+            match violation_key(&fx, case, &j, honest_sig) {
                 // among the cases of one key keep the first configuration's first case (independent of thread timing)
                 Some((key, what)) => report.violation_sized(key, what, case_json.clone(), configs_done * 1_000_000 + idx),
                 None => {
@@ -1088,10 +1121,11 @@ fn main() {
         evaluations += ev.load(Ordering::Relaxed);
         nontrivial += nt.load(Ordering::Relaxed);
         not_applicable += na.load(Ordering::Relaxed);
+        not_a_proof_total += nap.load(Ordering::Relaxed);
         per_config.push(json!({
             "config": fx.name, "family": family(&fx), "desc": fx.desc, "honest": honest_note,
             "faults_planned": cases.len(), "in_process": inproc.len(), "in_child_process": wk.len(),
-            "evaluated": ev.load(Ordering::Relaxed), "native_rejects": nt.load(Ordering::Relaxed),
+            "evaluated": ev.load(Ordering::Relaxed), "not_a_proof": nap.load(Ordering::Relaxed), "native_rejects": nt.load(Ordering::Relaxed),
             "fault_not_applicable": na.load(Ordering::Relaxed), "skipped_out_of_time": sk,
             "outcomes": cfg_out.to_json(), "circuit_builds": fx.stats.to_json(), "wall_s": t0.elapsed().as_secs_f64(),
         }));
@@ -1121,8 +1155,7 @@ fn main() {
         "rule": "one evaluation = one single-fault object (configuration × fault) that still deserialises, judged by the native \
                  verifier AND driven through allocate → verify_*_circuit → build → pack_values → set inputs → set_*_mmcs_private_data → run; \
                  distinct = distinct (configuration, fault); non-trivial = the native verifier REJECTS the object (so an `Ok` run of the \
-                 circuit would be a weaker circuit). Faults that no longer deserialise are counted under not_a_proof and are not evaluations' \
-                 non-trivial part",
+                 circuit would be a weaker circuit). Faults that no longer deserialise are counted separately (not_a_proof) and are not evaluations",
         "exhaustive": exhaustive,
         "space": "configurations × every single structural fault: proof-tree arrays pop/dup_last/empty, object members → null, null → filled, \
                   structural integers −1/+1/0/63; FriVerifierParams integers −1/+1/0/63 (alone and together with the config), permutation_config → None, \
@@ -1132,6 +1165,7 @@ fn main() {
         "faults_planned": planned_total,
         "faults_skipped_out_of_time": skipped_total,
         "faults_not_applicable": not_applicable,
+        "faults_not_a_proof(no longer deserialise; counted, skipped)": not_a_proof_total,
         "outcome_histogram": outcomes.to_json(),
         "outcomes_by_entry_point": *by_stage.lock().unwrap(),
         "outcomes_by_fault_class": *by_class.lock().unwrap(),
@@ -1144,6 +1178,7 @@ fn main() {
     let assumptions = vec![
         "native Plonky3 0.6.3 verifiers (verify_with_preprocessed, verify_batch; BatchStarkProver::verify_all_tables for circuit-table proofs) define which malformed objects must not be accepted".to_string(),
         "single faults only; integer fault values −1, +1, 0, 63".to_string(),
+        "clause (b) is judged two ways: run Ok on the honestly packed malformed object while native rejects; and, for shortened lists, a returned circuit with fewer Merkle-opening ops than the well-formed shape's circuit while native rejects (the run failing later for arithmetic reasons does not make the truncation a check)".to_string(),
         "clause (b) compares on the SAME parameter set: for parameter faults the native verifier is configured with the faulted value. Parameters the circuit API does not receive (num_queries, max_log_arity, cap height) and FriVerifierParams made inconsistent with the StarkConfig are judged under clause (a) only; their circuit-Ok/native-reject counts are reported".to_string(),
         "circuit verdict = runner outcome on honestly packed inputs of the faulted object (pack_values + set_*_mmcs_private_data)".to_string(),
         "panic keys use crate-relative file + message with numbers abstracted (no line numbers, no values); the line is given in the description".to_string(),
